@@ -46,31 +46,51 @@ func validate(s *Scenario) string {
 		}
 	}
 	// global order
-	n := 0
+	for gi, p := range s.Packets {
+		if gi > 0 && p.TimeUS <= s.Packets[gi-1].TimeUS {
+			return fmt.Sprintf("time stamps not strictly increasing at %d", gi)
+		}
+	}
 	next := make([]int, len(s.Conversations))
 	lastT := make([]int64, len(s.Conversations))
+	for _, p := range s.Packets {
+		c := s.Conversations[p.Conv]
+		if next[p.Conv] >= len(c.flow) || c.flow[next[p.Conv]] != p {
+			return fmt.Sprintf("a packet is not the next packet of conversation %d", p.Conv)
+		}
+		if next[p.Conv] > 0 && p.TimeUS-lastT[p.Conv] >= 4*60*1000000 {
+			return fmt.Sprintf("conversation %d idles %d us", p.Conv, p.TimeUS-lastT[p.Conv])
+		}
+		lastT[p.Conv] = p.TimeUS
+		next[p.Conv]++
+	}
+	// capture files: every packet in exactly one, sorted by time, ordered by first packet
+	n := 0
+	seen := map[*Packet]bool{}
+	contiguous := true
 	for ci, cp := range s.Captures {
 		if len(cp.Packets) == 0 {
 			return "empty capture"
 		}
+		if ci > 0 && cp.Packets[0].TimeUS < s.Captures[ci-1].Packets[0].TimeUS {
+			return "captures not ordered by first packet"
+		}
 		for i, p := range cp.Packets {
-			if s.Packets[n] != p || p.Capture != ci || p.Index != i {
-				return fmt.Sprintf("capture %d packet %d is not packet %d of the scenario", ci, i, n)
+			if seen[p] || p.Capture != ci || p.Index != i {
+				return fmt.Sprintf("capture %d packet %d: in two files or wrong back reference", ci, i)
 			}
-			if n > 0 && p.TimeUS <= s.Packets[n-1].TimeUS {
-				return fmt.Sprintf("time stamps not strictly increasing at %d", n)
+			seen[p] = true
+			if i > 0 && p.TimeUS <= cp.Packets[i-1].TimeUS {
+				return fmt.Sprintf("capture %d not sorted by time at %d", ci, i)
 			}
-			c := s.Conversations[p.Conv]
-			if next[p.Conv] >= len(c.flow) || c.flow[next[p.Conv]] != p {
-				return fmt.Sprintf("packet %d is not the next packet of conversation %d", n, p.Conv)
+			if n >= len(s.Packets) || s.Packets[n] != p {
+				contiguous = false
 			}
-			if next[p.Conv] > 0 && p.TimeUS-lastT[p.Conv] >= 4*60*1000000 {
-				return fmt.Sprintf("conversation %d idles %d us", p.Conv, p.TimeUS-lastT[p.Conv])
-			}
-			lastT[p.Conv] = p.TimeUS
-			next[p.Conv]++
 			n++
 		}
+	}
+	if contiguous == s.Overlapping {
+		return fmt.Sprintf("Overlapping=%v but contiguous=%v", s.Overlapping, contiguous)
 	}
 	if n != len(s.Packets) {
 		return "captures do not cover all packets"
